@@ -331,11 +331,15 @@ static std::string slurp(const std::string& path) {
 }
 // removes the decorations of the interactive mode (banner, prompts, "Elapsed:" lines, "Error: ..." reports);
 // counts the reports
+static std::string cleanBody(const std::string& t, int& nerr, int& nperr);
 static std::string cleanInteractive(const std::string& raw, int& nerr, int& nperr) {
-  nerr = 0; nperr = 0;
   std::string t = raw;
   /* banner: first two lines */
   for (int k = 0; k < 2; ++k) { size_t e = t.find('\n'); if (e == std::string::npos) break; t.erase(0, e + 1); }
+  return cleanBody(t, nerr, nperr);
+}
+static std::string cleanBody(const std::string& t, int& nerr, int& nperr) {
+  nerr = 0; nperr = 0;
   std::string out;
   size_t i = 0;
   while (i < t.size()) {
@@ -365,14 +369,32 @@ static std::string runCli(const vj::Val& st) {
   std::string prog = dir + "/prog.bloc", so = dir + "/stdout", se = dir + "/stderr", of = dir + "/out.txt", si = dir + "/stdin";
   { std::ofstream f(prog, std::ios::binary); f << text; }
   std::string savedpath = dir + "/saved.bloc";
-  { std::ofstream f(si, std::ios::binary); if (mode == "stdin" || mode == "inter") f << text; else if (mode == "save") f << text << "\nsave \"" << savedpath << "\"\n"; }
+  /* a session: commands of the interactive mode, each followed by a marker (an expression command that prints "@@k") so that the
+     output can be cut into one piece per command; `save` (and the hidden save before `list`) writes a file of its own */
+  size_t ncmds = 0;
+  std::string session;
+  if (mode == "session") {
+    std::map<long, size_t> lastk;
+    if (const vj::Val* cs = st.get("cmds")) for (auto& cp : cs->a) {
+      const vj::Val& c = *cp; ++ncmds;
+      std::string k = c.str("c", ""), fk = dir + "/" + std::to_string(ncmds) + ".sav";
+      if (k == "stmt") session += c.str("text", "") + "\n";
+      else if (k == "run" || k == "clear" || k == "dump") session += k + "\n";
+      else if (k == "list") session += "save \"" + fk + "\"\nlist\n";
+      else if (k == "save") { session += "save \"" + fk + "\"\n"; lastk[c.num("f", 0)] = ncmds; }
+      else if (k == "load") { auto it = lastk.find(c.num("f", 0)); session += "load \"" + (it == lastk.end() ? dir + "/none.sav" : dir + "/" + std::to_string(it->second) + ".sav") + "\"\n"; }
+      else if (k == "expr") session += "= " + c.str("text", "") + "\n\n";
+      session += "= \"@@" + std::to_string(ncmds) + "\"\n\n";
+    }
+  }
+  { std::ofstream f(si, std::ios::binary); if (mode == "stdin" || mode == "inter") f << text; else if (mode == "save") f << text << "\nsave \"" << savedpath << "\"\n"; else if (mode == "session") f << session; }
   unlink(savedpath.c_str());
   unlink(of.c_str());
   std::vector<std::string> argv;
   argv.push_back(bloc ? bloc : "bloc");
   if (mode == "out") argv.push_back("--out=" + of);
   if (mode == "expr") { argv.push_back("-e"); argv.push_back(text); }
-  else if (mode == "inter" || mode == "save") argv.push_back("-i");
+  else if (mode == "inter" || mode == "save" || mode == "session") argv.push_back("-i");
   else if (mode == "stdin") argv.push_back("-");
   else argv.push_back(prog);
   if (const vj::Val* a = st.get("args")) for (auto& x : a->a) argv.push_back(x->s);
@@ -407,6 +429,27 @@ static std::string runCli(const vj::Val& st) {
     int st2 = 0; waitpid(p2, &st2, 0);
     o += ",\"saved_text\":" + vj::q(saved) + ",\"saved_out\":" + vj::q(slurp(so2)) + ",\"saved_status\":" + std::to_string(WIFEXITED(st2) ? WEXITSTATUS(st2) : -1);
     unlink(so2.c_str()); unlink(savedpath.c_str());
+  }
+  if (mode == "session") {
+    std::string t = out;
+    for (int k = 0; k < 2; ++k) { size_t e = t.find('\n'); if (e == std::string::npos) break; t.erase(0, e + 1); }
+    o += ",\"cmds\":[";
+    size_t pos0 = 0;
+    for (size_t k = 1; k <= ncmds; ++k) {
+      std::string mk = "@@" + std::to_string(k) + "\n";
+      size_t m = t.find(mk, pos0);
+      if (m == std::string::npos) break;
+      int nerr = 0, nperr = 0;
+      std::string piece = cleanBody(t.substr(pos0, m - pos0), nerr, nperr);
+      std::string fk = dir + "/" + std::to_string(k) + ".sav";
+      struct stat sb2; bool hf = stat(fk.c_str(), &sb2) == 0;
+      if (k > 1) o += ",";
+      o += "{\"out\":" + vj::q(piece) + ",\"nerr\":" + std::to_string(nerr) + ",\"nperr\":" + std::to_string(nperr) +
+           ",\"hasfile\":" + (hf ? "true" : "false") + ",\"file\":" + vj::q(hf ? slurp(fk) : std::string()) + "}";
+      pos0 = m + mk.size();
+    }
+    o += "]";
+    for (size_t k = 1; k <= ncmds; ++k) unlink((dir + "/" + std::to_string(k) + ".sav").c_str());
   }
   if (mode == "inter" || mode == "save") {
     int nerr = 0, nperr = 0;
